@@ -83,6 +83,8 @@ fn symbol_to_document_symbol(symbol_map: &SymbolMap, symbol: Symbol) -> Option<D
             let def_list = defset
                 .def_list
                 .iter()
+                // a def that an include inside the defset body brings in belongs to the other file's outline
+                .filter(|id| symbol_map.record(**id).define_loc.file == defset.define_loc.file)
                 .map(|id| symbol_map.symbol((*id).into()))
                 .filter_map(|symbol| symbol_to_document_symbol(symbol_map, symbol));
 
